@@ -10,6 +10,7 @@ structure W where
   lcount : Nat := 0
   rer : List Nat := [0, 0, 0, 0, 0]       -- content of the rollup exit tree (per rollup an identity of its exit root)
   seen : List (List Nat) := []             -- distinct rollup exit tree contents, in order of first appearance
+  injected : List Nat := []                -- L1 info leaf indexes whose global exit root was injected on the L2
 
 def rerIdOf (w : W) : W × Nat :=
   match w.seen.idxOf? w.rer with
@@ -61,11 +62,25 @@ def step (w : W) (ws : List String) : W × String :=
       | none => (w, "bad-op")
     | none => (w, "bad-op")
   | "l2blk" :: _ => (w, "ok")
+  | ["inj", _, idx] => match idx.toNat? with
+    | some i => if i < w.infos.length then ({ w with injected := w.injected ++ [i] }, "ok") else (w, "bad-op")
+    | none => (w, "bad-op")
+  -- `/injected-l1-info-leaf`: mainnet = the leaf itself; this L2 = the first injected leaf at or after the index
+  | ["q", "inj", n, idx] =>
+    match n.toNat?, idx.toNat? with
+    | some 0, some i => (w, if i < w.infos.length then s!"leaf {i}" else "err 500")
+    | some _, some i =>
+      (w, match firstInjectedAfter w.injected i with
+        | some k => s!"leaf {k}"
+        | none => "err 500")
+    | _, _ => (w, "bad-op")
   | ["q", "idx", n, dc] =>
     match n.toNat?, dc.toNat? with
     | some 0, some dc => (w, resStr (searchL1 w.infos dc))
     | some _, some dc => (w, resStr (searchL2 w.vs w.infos dc))
     | _, _ => (w, "bad-op")
+  -- the exit tree's nodes cannot be read while the request is served: no proof can be computed
+  | ["q", "proof!", _, _, _] => (w, "err 500")
   | ["q", "proof", _, leaf, _] =>
     match leaf.toNat? with
     | some k => (w, if k < w.infos.length then s!"proof leaf={k}" else "err 500")
